@@ -72,6 +72,8 @@ def specJudge (i : OpInst) (res : String) : Option Bool :=
     let setBytes := i.body.drop (i.body.length - setLen.toNat)
     let need : Int := if setLen < 17 then 17 else headerNeed (setBytes.getD 16 0)
     let emptyBelow := isFetch && noErr && setLen < need && c.hwm != i.offset
+    -- a set whose first entry carries an unknown magic byte is not an encoding of anything
+    if isFetch && setLen ≥ 17 && setBytes.getD 16 0 > 2 then none else
     let atWatermark := isFetch && noErr && c.hwm == i.offset
     if res.startsWith "fail" then some emptyBelow
     else if res == "ok" then some (!emptyBelow)
